@@ -73,8 +73,8 @@ unsigned vp_result_len() { return g_body->len; }
 unsigned vp_result_shape() { return g_body->shape; }
 
 // scheduler side: run / cancel one task of this algorithm (all tasks in the bag are SR objects: direct, non-virtual call)
-void vp_task_execute(task* t, execution_data* ed) { static_cast<SR*>(t)->SR::execute(*ed); }
-void vp_task_cancel(task* t, execution_data* ed) { static_cast<SR*>(t)->SR::cancel(*ed); }
+task* vp_task_execute(task* t, execution_data* ed) { return static_cast<SR*>(t)->SR::execute(*ed); }
+task* vp_task_cancel(task* t, execution_data* ed) { return static_cast<SR*>(t)->SR::cancel(*ed); }
 // contract of r1::initialize(task_group_context&) (src/tbb/task_group_context.cpp) as far as the header code reads it
 void vp_ctx_initialize(task_group_context* c) {
   c->my_cancellation_requested = 0; c->my_may_have_children.store(0, std::memory_order_relaxed);
